@@ -183,6 +183,38 @@ func alternation(c *fw.Ctx) {
 		}
 	}
 	c.Count("width_alternation_sequences", int64(n))
+	// packing a buffer of values into its own storage (dst = vals[:0]): the
+	// values of the group must be read before the destination is written.  All
+	// groups of width 1 and 2, a stride through widths 3 and 4.
+	m := 0
+	for w := 1; w <= 4; w++ {
+		total := uint64(1) << uint(8*w)
+		step := uint64(1)
+		if w >= 3 {
+			step = total/(1<<18) + 1
+			if step%2 == 0 {
+				step++
+			}
+		}
+		mask := uint64(1)<<uint(w) - 1
+		for x := uint64(0); x < total; x += step {
+			store := make([]byte, 8, 16)
+			for i := 0; i < 8; i++ {
+				store[i] = uint8(x >> (uint(w) * uint(i)) & mask)
+			}
+			got := parquet.VerifPack(store[:0], w, store[:8])
+			m++
+			ok := len(got) == w
+			for i := 0; ok && i < w; i++ {
+				ok = got[i] == byte(x>>(8*uint(i)))
+			}
+			if !ok {
+				c.Violate(fmt.Sprintf("w%d:Pack into the values' own storage", w), fmt.Sprintf("Pack(vals[:0], %d, vals) = %x for group %#x, specification layout is the little-endian bytes of that number", w, got, x), "inplace", gcase{w, uint32(x)})
+				break
+			}
+		}
+	}
+	c.Count("in_place_pack_calls", int64(m))
 }
 
 func firstWords(s string) string {
@@ -211,6 +243,20 @@ func replay(c *fw.Ctx, kind string, data json.RawMessage) string {
 		for i := range snapshot {
 			if snapshot[i] != first[i] {
 				return "the slice returned by Unpack changed after a later Unpack call (results share storage)"
+			}
+		}
+		return ""
+	}
+	if kind == "inplace" {
+		store := make([]byte, 8, 16)
+		mask := uint32(1)<<uint(g.Width) - 1
+		for i := 0; i < 8; i++ {
+			store[i] = uint8(g.X >> (uint(g.Width) * uint(i)) & mask)
+		}
+		got := parquet.VerifPack(store[:0], g.Width, store[:8])
+		for i := 0; i < g.Width; i++ {
+			if len(got) != g.Width || got[i] != byte(g.X>>(8*uint(i))) {
+				return fmt.Sprintf("Pack(vals[:0], %d, vals) = %x for group %#x", g.Width, got, g.X)
 			}
 		}
 		return ""
